@@ -39,12 +39,18 @@ inductive Result (α : Type) where
   | flow (q : α)
   | operatingPointError
 
-/-- `find_operating_point`: infeasible at the minimum-friction flow ⇒ OperatingPointError; otherwise the secant from qimin and the
-midpoint to the largest flow; not converged ⇒ OperatingPointError -/
-def findOp (gap : α → α) (sysAtQimin pumpAtQimin qimin qlast : α) : Result α :=
+/-- `find_operating_point`: infeasible at the minimum-friction flow ⇒ OperatingPointError; otherwise the secant on the head gap from qimin and
+the midpoint to the largest flow; not converged ⇒ OperatingPointError; a converged flow is returned only if system and pump head there
+agree within 1e-6 relative (the secant stops on the flow step, which is also met on a jump of the pump curve).
+`heads q` = (system head, pump head) for slurry at flow q. -/
+def findOp (heads : α → α × α) (sysAtQimin pumpAtQimin qimin qlast : α) : Result α :=
+  let gap := fun q => (heads q).1 - (heads q).2
   if sysAtQimin > pumpAtQimin then .operatingPointError
   else match secant gap (1.48e-8 : α) 50 qimin ((qimin + qlast) / (2.0 : α)) with
-    | .converged r => .flow r
+    | .converged r =>
+      let hs := (heads r).1
+      let hp := (heads r).2
+      if Transc.abs (hs - hp) ≤ (1e-6 : α) * pyMax (pyMax (Transc.abs hs) (Transc.abs hp)) (1.0 : α) then .flow r else .operatingPointError
     | .notConverged _ => .operatingPointError
 
 end
